@@ -146,7 +146,7 @@ def rand_history(rng, n_ops):
     ops = []
     for _ in range(n_ops):
         o = rng.choice(["append", "append", "extend", "extend", "insert", "insert", "add", "radd", "iadd", "iadd", "slice", "mul", "imul", "rmul",
-                        "reverse", "pop", "del_slice", "copy"])
+                        "reverse", "pop", "del_slice", "copy", "fork"])
         if o == "append":
             ops.append({"op": o, "args": [arg() for _ in range(rng.choice([1, 1, 2, 3]))]})
         elif o in ("extend", "add", "radd", "iadd"):
@@ -164,7 +164,7 @@ def rand_history(rng, n_ops):
             ops.append({"op": o, "i": rng.randint(-8, 8), "arg": arg()})
         elif o in ("slice", "del_slice"):
             ops.append({"op": o, "a": rng.choice([None, 0, 1, -1, 2, -3]), "b": rng.choice([None, 0, 2, -1, 5]), "c": rng.choice([None, None, 1, 2, -1])})
-        elif o in ("reverse", "copy"):
+        elif o in ("reverse", "copy", "fork"):
             ops.append({"op": o})
         elif o == "pop":
             ops.append({"op": o, "i": rng.choice([-1, 0, 1, -2])})
@@ -236,6 +236,7 @@ def step_op(step):
 def run_history(ctx, h):
     wit = {"history": h}
     supplied = []  # (container object given as an argument, snapshot of its elements at that time)
+    forks = []     # (child list of a copy made on the way, what it held after its own additions)
 
     def note_supplied(objs):
         for o in objs:
@@ -351,6 +352,8 @@ def run_history(ctx, h):
                 del m2[slice(op["a"], op["b"], op["c"])]
             elif o == "copy":
                 m2, new_model = model, list(model)
+            elif o == "fork":
+                m2 = model
             model_ok = True
         except F.Unsupported:
             model_ok = False
@@ -368,9 +371,9 @@ def run_history(ctx, h):
                     ctx.violation("iadd-not-in-place", "+= returned a different object", dict(wit, step=step))
                     return
             elif o == "add":
-                new_live = live + built
+                new_live = live + _one_shot(ctx, built, si)
             elif o == "radd":
-                new_live = built + live
+                new_live = _one_shot(ctx, built, si) + live
             elif o == "insert":
                 target.insert(op["i"], built)
             elif o == "slice":
@@ -394,6 +397,24 @@ def run_history(ctx, h):
             elif o == "copy":
                 import copy as _c
                 new_live = _c.copy(live) if si % 2 else live.copy()
+            elif o == "fork":
+                # a copy of the element (or list) gets children of its own; neither side ever sees the other's
+                import copy as _c
+                base_ = owner if owner is not None else live
+                plain_ = all(isinstance(x, (str, ht.Tag, ht.MetadataNode)) for x in live)
+                twin = base_.tagify() if (plain_ and si % 3 == 0) else _c.copy(base_)
+                tkids = twin.children if owner is not None else twin
+                if si % 2:
+                    twin.append("ONLY-ON-THE-COPY")
+                    tkids.insert(0, "copy-first")
+                else:
+                    tkids += ["ONLY-ON-THE-COPY"]
+                    twin.insert(0, "copy-first")
+                ctx.count("oracle.forks")
+                if len(tkids) != len(model) + 2 or tkids[0] != "copy-first" or tkids[-1] != "ONLY-ON-THE-COPY":
+                    ctx.violation("children-differ-from-flatten-model", "step %s: the copy does not hold its own two additions around the copied children" % step, dict(wit, step=step))
+                    return
+                forks.append((tkids, list(tkids)))
             live_ok = True
         except TypeError:
             live_ok = False
@@ -419,6 +440,10 @@ def run_history(ctx, h):
             return
         if not supplied_untouched(step):
             return
+        for tk, snap_ in forks:
+            if len(tk) != len(snap_) or any(a is not b and a != b for a, b in zip(tk, snap_)):
+                ctx.violation("children-differ-from-flatten-model", "after step %s the children of a COPY made earlier have changed" % step, dict(wit, step=step))
+                return
         if o in ("append", "insert", "extend", "iadd", "add", "radd"):
             note_supplied(built if o == "append" else [built])
         # the child list must not alias an argument: changing the argument afterwards leaves the children alone
